@@ -74,3 +74,20 @@ contract(
     ensures=["result._sequence == spec.seq.successor(v, 1, 65535)",
              "next(g) == spec.seq.successor(spec.seq.successor(v, 1, 65535), 1, 65535)",
              "result.offset == offset", "result.value == value", "result.request_id == req.request_id"], props=["C17"])
+
+
+# ---- adjacency of the counts actually sent: BOUNDED stand-in (run-time monitor), never counted as proved
+def _positions(tier):
+    import spec.seqmon
+    span = range(65500, 65536) if tier != "thorough" else range(65000, 65536)
+    for name in spec.seqmon.SCENARIOS:
+        for pos in list(span) + list(range(0, 12)):
+            yield {"scenario": name, "position": pos}
+
+
+contract(
+    id="sequence.adjacent_on_the_wire", func="pycomm3.cip_driver.CIPDriver.send",
+    call="spec.seqmon.adjacent_counts_differ(scenario, position)", ref="True",
+    params={"scenario": P.str(), "position": P.int(0, 65535)}, enum=_positions, callsite=False, props=["C17"],
+    bounded="whole-driver histories (which packet objects reach the socket, in which order) are not within reach of a per-function "
+            "contract; six operation scenarios x every counter phase around the wrap are monitored on the real driver instead")
